@@ -116,6 +116,20 @@ def rule_b2(ck, prog):
             if idx.k == "UnaryOperator" and idx.get("op") == "++" and idx.get("postfix"):
                 posvars.add(idx.child(0).strip().get("path"))
                 ck.holds("C14-B2", st, K.loc(f, n), "`%s`: stored at the position, which advances by one" % n.src[:40])
+                continue
+            # the same in two statements: str[pos] = c; pos++;  (next store in the same block is the increment of pos)
+            ip = idx.strip_all_casts().get("path")
+            blk, bi = f.where.get(n.id, (None, None))
+            nxt = None
+            if blk is not None and ip:
+                for e in blk.elems[bi + 1:]:
+                    if C.store_target(e) is not None:
+                        nxt = e
+                        break
+            if nxt is not None and C.store_target(nxt).get("path") == ip and \
+                    ((nxt.k == "UnaryOperator" and nxt.get("op") == "++") or (nxt.get("op") == "+=" and C.const_of(nxt.child(1)) == 1)):
+                posvars.add(ip)
+                ck.holds("C14-B2", st, K.loc(f, n), "`%s; %s`: stored at the position, which then advances by one" % (n.src[:30], nxt.src[:12]))
             else:
                 ck.violated("C14-B2", st, K.loc(f, n), "character stored at `%s`, not at the post-incremented running position" % idx.src)
         st = K.site(f, "returns-position", 0)
@@ -129,6 +143,7 @@ def rule_b2(ck, prog):
         pos = next(iter(posvars)) if len(posvars) == 1 else None
         if pos:
             others = [n for n, t in C.stores(f) if t.get("path") == pos and not (n.k == "UnaryOperator" and n.get("op") == "++")
+                      and not (n.get("op") == "+=" and C.const_of(n.child(1)) == 1)
                       and not (n.get("op") == "=" and C.const_of(n.child(1)) == 0)]
             inits = [d for d in f.nodes.values() if d.k == "DeclStmt" for dd in d.get("decls", []) if dd["name"] == pos and "init" in dd
                      and C.const_of(f.nodes[dd["init"]]) == 0]
